@@ -27,6 +27,8 @@ DECIDED_MORE = ('Also: every iter()/next() of the handler iterable in _cast is i
 DECIDED = DECIDED + ' ' + DECIDED_MORE
 DECIDED_R6 = ('Round 6: exactly 1xx/204/304 lose their body by status; emit iterates a snapshot; pair-level transcoding of every emitted header value; range-parser clauses of C17 under e; type-aware flow of the peeked item in _cast.')
 DECIDED = DECIDED + ' ' + DECIDED_R6
+DECIDED_R7 = ('Round 7: _cast announces no length but len() of the bytes it returns; a status line is not compared with numbers; hooks remembered by emit are dropped by every method that edits the hook lists.')
+DECIDED = DECIDED + ' ' + DECIDED_R7
 NOT_DECIDED = ('header-list well-formedness beyond C14; close-exactly-once at run time for arbitrary servers; custom error '
                'handlers; behaviour after the first body chunk; the open set of handler programs.')
 ASSUMPTIONS = ['the server calls close() on the returned iterable once (PEP 3333)', 'start_response itself may raise: then the handler\'s call carries exc_info']
